@@ -55,11 +55,16 @@ def sharing_doc(rng):
         else:
             val = (form % gid).replace('"', "&quot;")
             src = src.replace("</svg>", '<rect x="3" y="4" width="12" height="9" fill="%s"/></svg>' % val)
-    elif k < 0.86:
+    elif k < 0.83 and g.grad_ids:
+        # fill and stroke of one transformed shape painted by the same gradient: two copies are written, each needs its own id
+        gid = rng.choice(g.grad_ids)
+        src = src.replace("</svg>", '<rect x="4" y="5" width="20" height="14" fill="url(#%s)" stroke="url(#%s)" stroke-width="%s" transform="%s"/></svg>'
+                          % (gid, gid, rng.choice(["2", "3.5"]), rng.choice(["rotate(10)", "translate(3 4) scale(1.5 0.7)", "skewX(12)"])))
+    elif k < 0.88:
         # a paint server the converter cannot keep: a pattern (known finding: the reference is left dangling)
         src = src.replace("</svg>", PATTERN_TAIL)
-    elif k < 0.92:
-        # a gradient written inside a symbol without id (known finding: dropped with the symbol, the reference is left dangling)
+    elif k < 0.93:
+        # a gradient written inside a symbol without id (it outlives the symbol since de121e8)
         src = src.replace("</svg>", SYMBOL_TAIL)
     return src
 
